@@ -136,19 +136,42 @@ inline WritePlan& write_plan() {
 
 // ---------------------------------------------------------------- the close() log
 
+// While the log is active it can also inject the one fault close() has: the call RELEASES the descriptor and reports -1 / EINTR
+// (Linux, like most systems, frees the number before it can be interrupted: a caller that retries closes the number a second
+// time - EBADF, or whatever was opened on it in the meantime). fault_mode 1: just that; fault_mode 2: the number is also taken
+// again at once by an unrelated descriptor (/dev/null), as another thread's open() would, recorded in `reused`. The j-th logged
+// close() call is faulted when bit (j mod 62) of fault_mask is set and the previous logged call was not itself a faulted one
+// (so a retry loop terminates).
 struct CloseLog {
   bool active = false;
   struct Ev {
     int fd;
     int err; // 0 or errno
+    bool injected; // err is the EINTR reported by the fault plan (the descriptor was released)
   };
   std::vector<Ev> events;
-  void start() {
+  int fault_mode = 0;
+  uint64_t fault_mask = 0;
+  uint64_t faulted = 0;
+  std::set<int> reused; // numbers re-opened by fault_mode 2: unrelated descriptors from then on
+  void start(int mode = 0, uint64_t mask = 0) {
     events.clear();
     events.reserve(64);
+    fault_mode = mode;
+    fault_mask = mask;
+    faulted = 0;
+    reused.clear();
     active = true;
   }
-  void stop() { active = false; }
+  void stop() {
+    active = false;
+    fault_mode = 0;
+  }
+  bool fault_now() const {
+    if (!fault_mode) return false;
+    if (!events.empty() && events.back().injected) return false;
+    return (fault_mask >> (events.size() % 62)) & 1;
+  }
 };
 inline CloseLog& closelog() {
   static CloseLog l;
